@@ -1,6 +1,6 @@
 (* C08: the obligations of Properties.v, proved (statement for statement) *)
 From OlaBase Require Import Bytes.
-From C08 Require Import Gen Model Spec ListLemmas SacnTrack SacnProofs SacnThms ArtProofs.
+From C08 Require Import Gen Model Spec ListLemmas SacnTrack SacnProofs SacnThms ArtProofs ArtDistinct SeqInv TextSpec TextThm.
 Local Open Scope N_scope.
 
 Lemma c08_consts_l :
@@ -92,8 +92,9 @@ Lemma c08_artnet_merge_l :
     length (ap_srcs port') = 2%nat /\
     In me (ap_srcs port') /\
     (forall t, In t (ap_srcs port') ->
-       t = me \/ a_addr t = 0 \/ a_addr t = k_addr k \/
-       (In t (ap_srcs port) /\ now <= a_ts t + 10000000)) /\
+       t = me \/ a_addr t = 0 \/
+       (In t (ap_srcs port) /\ now <= a_ts t + 10000000 /\ a_addr t <> k_addr k)) /\
+    adistinct (ap_srcs port') /\
     (ac_ltp c = true -> ap_buf port' = frame) /\
     (ac_ltp c = false -> k_addr k <> 0 ->
        htp_of (map a_buf (filter (fun s => negb (a_addr s =? 0)) (ap_srcs port'))) (ap_buf port')).
@@ -104,9 +105,10 @@ Proof.
   destruct (negb (k_net k =? ac_net c)); [discriminate|].
   destruct (negb (k_univ k =? ac_univ c)); [discriminate|].
   fold frame in H. fold me in H.
-  destruct (update_port_accept _ _ _ _ _ H) as (Hl & Hin & Hall & Hb).
+  destruct (update_port_accept _ _ _ _ _ H) as (Hl & Hin & _ & Hb).
+  destruct (update_port_distinct _ _ _ _ _ (arun_distinct c h _ init_distinct) H) as (Hd & Hall).
   split; [rewrite Hl; unfold port; rewrite arun_length; reflexivity|].
-  split; [exact Hin|]. split; [exact Hall|]. split.
+  split; [exact Hin|]. split; [exact Hall|]. split; [exact Hd|]. split.
   - intros L. rewrite L in Hb. exact Hb.
   - intros L Hz. rewrite L in Hb. rewrite Hb. apply amerge_spec.
     intros E. assert (Hf : In me (filter (fun s => negb (a_addr s =? 0)) (ap_srcs port'))).
@@ -126,4 +128,18 @@ Proof.
   destruct (negb (k_univ k =? ac_univ c)); [reflexivity|].
   apply update_port_third. exact H.
 Qed.
+
+Lemma c08_sacn_refines_text_partial_l :
+  forall (c : cfg) (h : list (N * pkt)) (now : N) (p : pkt) (st' : ust) acc cb,
+    (forall np, In np h -> p_seq (snd np) < 256) -> p_seq p < 256 ->
+    guards c 0 [] h -> last_time 0 h <= now -> guard c now (trun c [] h) p ->
+    handle c now (run c init_ust h) p = (st', OMerge acc cb) ->
+    u_buf st' = text_out now (tstep c now (trun c [] h) p).
+Proof. exact refines_text. Qed.
+
+Lemma c08_sacn_seq_range_l :
+  forall (c : cfg) (h : list (N * pkt)),
+    (forall np, In np h -> p_seq (snd np) < 256) ->
+    forall s, In s (u_srcs (fst (grun c init_ust [] h))) -> s_seq s < 256.
+Proof. intros c h B. exact (grun_seq c h B). Qed.
 
